@@ -18,6 +18,7 @@ pub mod sa;
 pub mod io;
 pub mod fm;
 pub mod prng;
+pub mod itproto;
 
 /// all occurrences of `p` in `t` in O(|p|+|t|) by the Z-function (textbook; independent of the
 /// matchers under test; cross-checked against `naive_find` by the sub-checks that use it)
